@@ -194,6 +194,104 @@ fn run_one(keyed: bool, m: i64, hc: bool, exec: &Exec, rows: &Value) -> Value {
     }
 }
 
+/// record i of a "big" pattern (mirrored by `big_value` in Corr/C17.v): invalid iff
+/// i mod m >= t, then 1 + i mod 3 errors
+fn big_value(m: i64, t: i64, i: i64) -> i64 {
+    4 * i + if i.rem_euclid(m) >= t { 1 + i % 3 } else { 0 }
+}
+
+/// "big" kind: k runs of n records each (run j holds records j*n .. (j+1)*n) through ONE shared
+/// collector; only summaries are emitted:
+///   ["panic"] | ["err","other"] |
+///   ["ok", [[len, sum of values, first, last, order_and_keys_ok] per run],
+///          [error_count, entries, distinct payloads, sum of codes, number of errors,
+///           sum of record idx, entries with a wrong id prefix or a garbled error]]
+fn run_big(keyed: bool, m_mode: i64, hc: bool, exec: &Exec, n: i64, m: i64, t: i64, k: i64) -> Value {
+    let Some(mode) = mode_of(m_mode) else { return json!(["invalid"]) };
+    let coll = Arc::new(Mutex::new(ErrorCollector::new()));
+    let mut outs = Vec::new();
+    for j in 0..k {
+        let vals: Vec<i64> = (j * n..(j + 1) * n).map(|i| big_value(m, t, i)).collect();
+        let given = if hc { Some(Arc::clone(&coll)) } else { None };
+        let res: std::thread::Result<anyhow::Result<Vec<(i64, i64)>>> = if keyed {
+            let data: Vec<(i64, Rec)> = vals.iter().map(|v| ((v / 4) % 7, Rec(*v))).collect();
+            catch_unwind(AssertUnwindSafe(|| {
+                let p = Pipeline::default();
+                let src = from_vec(&p, data);
+                let v = if mutant::id() != 0 {
+                    src.apply_transform(Arc::new(mutant::ValidateValuesOp::<i64, Rec> {
+                        mu: mutant::id(),
+                        mode,
+                        collector: given,
+                        _phantom: std::marker::PhantomData,
+                    }))
+                } else {
+                    src.validate_values_with_mode(mode, given)
+                };
+                let out = match exec {
+                    Exec::Seq => v.collect_seq(),
+                    Exec::Par(t, p) => v.collect_par(Some(*t), Some(*p)),
+                };
+                out.map(|rows| rows.into_iter().map(|(key, r)| (key, r.0)).collect())
+            }))
+        } else {
+            let data: Vec<Rec> = vals.iter().map(|v| Rec(*v)).collect();
+            catch_unwind(AssertUnwindSafe(|| {
+                let p = Pipeline::default();
+                let src = from_vec(&p, data);
+                let v = if mutant::id() != 0 {
+                    src.apply_transform(Arc::new(mutant::ValidateOp::<Rec> {
+                        mu: mutant::id(),
+                        mode,
+                        collector: given,
+                        _phantom: std::marker::PhantomData,
+                    }))
+                } else {
+                    src.validate_with_mode(mode, given)
+                };
+                let out = match exec {
+                    Exec::Seq => v.collect_seq(),
+                    Exec::Par(t, p) => v.collect_par(Some(*t), Some(*p)),
+                };
+                out.map(|rows| rows.into_iter().map(|r| ((r.0 / 4) % 7, r.0)).collect())
+            }))
+        };
+        match res {
+            Err(_) => return json!(["panic"]),
+            Ok(Err(_)) => return json!(["err", "other"]),
+            Ok(Ok(rows)) => {
+                let mut ok = true;
+                let mut prev: Option<i64> = None;
+                let mut sum = 0i64;
+                for (key, v) in &rows {
+                    ok &= prev.is_none_or(|p| p < *v) && *key == (*v / 4) % 7;
+                    prev = Some(*v);
+                    sum += *v;
+                }
+                let first = rows.first().map_or(-1, |r| r.1);
+                let last = rows.last().map_or(-1, |r| r.1);
+                outs.push(json!([rows.len() as i64, sum, first, last, i64::from(ok)]));
+            }
+        }
+    }
+    let g = coll.lock().unwrap_or_else(std::sync::PoisonError::into_inner);
+    let want_prefix = i64::from(keyed);
+    let mut distinct = std::collections::HashSet::new();
+    let (mut sum_codes, mut nerrs, mut sum_idx, mut bad) = (0i64, 0i64, 0i64, 0i64);
+    for r in g.errors() {
+        let (codes, prefix, idx) = entry_json(r.record_id.as_ref(), &r.errors);
+        if prefix != want_prefix || idx < 0 || codes.iter().any(|c| *c < 0) {
+            bad += 1;
+        }
+        sum_codes += codes.iter().sum::<i64>();
+        nerrs += codes.len() as i64;
+        sum_idx += idx;
+        distinct.insert(codes);
+    }
+    json!(["ok", outs, [g.error_count() as i64, g.errors().len() as i64, distinct.len() as i64,
+                        sum_codes, nerrs, sum_idx, bad]])
+}
+
 /// record i of an exhaustive pattern (mirrored by `pattern_rows` in Corr/C17.v)
 fn pattern_rows(keyed: bool, len: i64, bits: i64) -> Value {
     let rows: Vec<Value> = (0..len)
@@ -231,6 +329,27 @@ fn run(kind: &str, input: &Value) -> Value {
                 return json!(["invalid"]);
             }
             run_one(keyed, m, hc, &exec, rows)
+        }
+        "big" => {
+            // in = [keyed, mode, has_collector, exec, threads, partitions, n, m, t, runs]
+            let (Some(keyed), Some(md), Some(hc), Some(ex), Some(th), Some(parts)) =
+                (bit(0), int(1), bit(2), int(3), int(4), int(5))
+            else {
+                return json!(["invalid"]);
+            };
+            let (Some(n), Some(m), Some(t), Some(k)) = (int(6), int(7), int(8), int(9)) else {
+                return json!(["invalid"]);
+            };
+            let Some(exec) = exec_of(ex, th, parts) else { return json!(["invalid"]) };
+            if input.as_array().map(Vec::len) != Some(10)
+                || !(0..=400_000).contains(&n)
+                || m < 1
+                || t < 0
+                || !(1..=8).contains(&k)
+            {
+                return json!(["invalid"]);
+            }
+            run_big(keyed, md, hc, &exec, n, m, t, k)
         }
         "row" => {
             let (Some(keyed), Some(len), Some(bits), Some(maxp)) = (bit(0), int(1), int(2), int(3))
@@ -406,6 +525,11 @@ mod mutant {
                             }
                             if mu == 11 {
                                 valid.push(elem); // logged but not dropped
+                            }
+                            if mu == 15
+                                && collector.is_some_and(|c| c.lock().unwrap().error_count() >= 10_000)
+                            {
+                                continue; // "memory-safety cap": entries beyond 10 000 are dropped
                             }
                             if let Some(c) = collector {
                                 let shown = if mu == 1 { idx + 1 } else { idx };
@@ -624,6 +748,51 @@ fn generate(seed: u64, tier: Tier, em: &mut Emitter) {
             for bits in 0..(1i64 << len) {
                 let nt = len >= 2 && bits != 0 && bits != (1 << len) - 1;
                 em.case("row", json!([i64::from(keyed), len, bits, 9]), nt, &["exhaustive"]);
+            }
+        }
+    }
+
+    // 2b. big runs: more than 10 000 invalid records reaching ONE collector, in one run or over
+    // several runs that reuse it; only summaries are compared (see run_big)
+    {
+        let big = |em: &mut Emitter, keyed: bool, md: i64, hc: bool, ex: i64, parts: i64,
+                       n: i64, m: i64, t: i64, k: i64, tag: &str| {
+            em.case(
+                "big",
+                json!([i64::from(keyed), md, i64::from(hc), ex, 3, parts, n, m, t, k]),
+                t < m && n >= 2,
+                &["big", tag],
+            );
+        };
+        let sizes: &[i64] = if thorough { &[10_001, 20_001, 100_003] } else { &[10_001, 20_001] };
+        for keyed in [false, true] {
+            for &n in sizes {
+                // every record invalid
+                big(em, keyed, 1, true, 0, 0, n, 1, 0, 1, "all-invalid");
+                for parts in [1, 4, 16] {
+                    big(em, keyed, 1, true, 1, parts, n, 1, 0, 1, "all-invalid");
+                }
+                // record i invalid iff i mod 3 != 0
+                big(em, keyed, 1, true, 0, 0, n, 3, 1, 1, "mod3");
+                for parts in [3, 8] {
+                    big(em, keyed, 1, true, 1, parts, n, 3, 1, 1, "mod3");
+                }
+            }
+            // exactly 10 000 invalid records, and one more
+            big(em, keyed, 1, true, 1, 4, 10_000, 1, 0, 1, "boundary");
+            big(em, keyed, 1, true, 1, 4, 15_000, 3, 1, 1, "boundary");
+            big(em, keyed, 1, true, 1, 4, 15_002, 3, 1, 1, "boundary");
+            // one collector reused by 3 runs of 4 000 invalid records each
+            big(em, keyed, 1, true, 0, 0, 6_000, 3, 1, 3, "reuse");
+            big(em, keyed, 1, true, 1, 4, 6_000, 3, 1, 3, "reuse");
+            big(em, keyed, 1, true, 1, 5, 4_000, 1, 0, 3, "reuse");
+            // the other modes at this size
+            big(em, keyed, 0, true, 1, 4, 20_001, 3, 1, 1, "skip");
+            big(em, keyed, 1, false, 1, 4, 20_001, 3, 1, 1, "log-no-collector");
+            big(em, keyed, 2, true, 1, 4, 20_001, 1, 1, 1, "failfast-all-valid");
+            big(em, keyed, 2, false, 1, 4, 20_001, 20_001, 20_000, 1, "failfast-last-invalid");
+            if thorough {
+                big(em, keyed, 1, true, 1, 7, 40_000, 4, 1, 3, "reuse");
             }
         }
     }
